@@ -74,6 +74,45 @@ func runC01(c *Ctx) {
 			}))
 			c.obI("R01.2", ci, "cleaned-path", ok, "the trie is asked about path.Clean(path) in the route lookup and in the other-methods probe alike", "argument originates from "+describeOrigin(bad))
 		}
+		// the raw path takes part in no decision: it is only cleaned (or logged)
+		for _, ref := range *pth.Referrers() {
+			okUse, what := false, fmt.Sprintf("%v", ref)
+			switch u := ref.(type) {
+			case ssa.CallInstruction:
+				okUse = calleeName(u.Common()) == "path.Clean"
+				what = "call of " + calleeName(u.Common())
+			case *ssa.MakeInterface:
+				// formatted into a log line
+				okUse = true
+				n := 0
+				for _, ci := range allCalls(f) {
+					for _, arg := range ci.Common().Args {
+						if elems, isLit := sliceLitElems(arg); isLit {
+							for _, e := range elems {
+								if e == ssa.Value(u) {
+									n++
+									isLog := strings.HasSuffix(calleeName(ci.Common()), "debugLogf")
+									if ld, isLd := derefLoad(ci.Common().Value); isLd && !isLog {
+										if fa, isFA := ld.(*ssa.FieldAddr); isFA {
+											if nn, st := structOf(fa.X.Type()); st != nil {
+												isLog = fieldNameOf(nn, st, fa.Field) == "debugLogf"
+											}
+										}
+									}
+									if !isLog {
+										okUse, what = false, "formatted by "+calleeName(ci.Common())
+									}
+								}
+							}
+						}
+					}
+				}
+				okUse = okUse && n > 0
+			case *ssa.DebugRef:
+				okUse = true
+			}
+			c.obI("R01.2", ref, "raw-path-only-cleaned", okUse, "the raw request path is used for nothing but path.Clean (and debug logging): no routing decision — found, not found, other methods — is taken on the uncleaned path", "the raw path is used by "+what)
+		}
 		ups := callsIn(f, "strings.ToUpper")
 		okU := len(ups) == 1
 		if okU {
@@ -166,99 +205,7 @@ func runC01(c *Ctx) {
 	c.min("R01.2", 12)
 
 	// R01.3
-	isCaptured := vFieldLoad(dencoParamT, "Value", nil)
-	unesc := callsIn(lk, "net/url.PathUnescape")
-	c.obF("R01.3", lk, "unescapes", len(unesc) == 1, "captured values are percent-decoded", fmt.Sprintf("%d PathUnescape calls", len(unesc)))
-	if len(unesc) == 1 {
-		u := unesc[0].(*ssa.Call)
-		c.obI("R01.3", u, "unescapes-captured-text", isCaptured(u.Call.Args[0]), "the text decoded is the text the trie captured", "argument "+describe(u.Call.Args[0]))
-		uerr := resultOf(u, 1)
-		decoded := func(o Origin) bool { return o.V == ssa.Value(u) && o.Index == 0 }
-		raw := func(o Origin) bool { return isCaptured(o.V) }
-		isV := func(v ssa.Value) (bool, string) {
-			ok, bad := allOrigins(v, decoded, raw)
-			if !ok {
-				return false, "origin " + describeOrigin(bad)
-			}
-			// raw only on the error branch
-			if phi, isPhi := v.(*ssa.Phi); isPhi {
-				for i, e := range phi.Edges {
-					if okR, _ := allOrigins(e, raw); okR {
-						if uerr == nil || !edgeGuarded(phi.Block().Preds[i], phi.Block(), u, factNil(vIs(uerr), false)) {
-							return false, "the raw (still encoded) text can be handed on although decoding succeeded"
-						}
-					}
-				}
-			} else if okR, _ := allOrigins(v, raw); okR {
-				return false, "the raw (still encoded) text is handed on"
-			}
-			return true, ""
-		}
-		dcs := callsIn(lk, "rt/middleware.decodeCompositParams")
-		nVal := 0
-		for _, st := range fieldStores(lk, routeParamT, "Value") {
-			nVal++
-			if ok, why := isV(st.Val); ok {
-				c.obI("R01.3", st, "value-decoded-once", true, "a path-parameter value is the PathUnescape of the captured text (raw text only when decoding failed)", why)
-				continue
-			}
-			// element of decodeCompositParams' values
-			okC := false
-			if ld, isLd := st.Val.(*ssa.UnOp); isLd {
-				if ia, isIA := ld.X.(*ssa.IndexAddr); isIA {
-					okC, _ = allOrigins(ia.X, oCall(1, "rt/middleware.decodeCompositParams"))
-				}
-			}
-			_, why := isV(st.Val)
-			c.obI("R01.3", st, "value-decoded-once", okC, "a path-parameter value is the PathUnescape of the captured text, directly or split by the composite decoder", why)
-		}
-		c.obF("R01.3", lk, "hands-values-on", nVal >= 2, "Lookup builds RouteParams", "")
-		for _, d := range dcs {
-			a := d.Common().Args
-			okN := vFieldLoad(dencoParamT, "Name", nil)(a[0])
-			okV, why := isV(a[1])
-			c.obI("R01.3", d, "composite-decoder-input", okN && okV && isNilConst(a[3]) && isNilConst(a[4]), "the composite decoder splits the decoded value of this capture", why)
-		}
-		for _, st := range fieldStores(lk, routeParamT, "Name") {
-			ok := vFieldLoad(dencoParamT, "Name", nil)(st.Val)
-			if !ok {
-				if ld, isLd := st.Val.(*ssa.UnOp); isLd {
-					if ia, isIA := ld.X.(*ssa.IndexAddr); isIA {
-						ok, _ = allOrigins(ia.X, oCall(0, "rt/middleware.decodeCompositParams"))
-					}
-				} else if ex, isEx := st.Val.(*ssa.Extract); isEx {
-					_ = ex
-				}
-				if !ok {
-					// range value over decodeCompositParams #0
-					for _, o := range originsOf(st.Val) {
-						if ad, isD := derefLoad(o.V); isD {
-							if ia, isIA := ad.(*ssa.IndexAddr); isIA {
-								ok, _ = allOrigins(ia.X, oCall(0, "rt/middleware.decodeCompositParams"))
-							}
-						}
-					}
-				}
-			}
-			c.obI("R01.3", st, "name-from-trie-or-decoder", ok, "parameter names come from the trie's capture or from the composite decoder", "name "+describe(st.Val))
-		}
-		// params of the matched route are exactly the accumulated list
-		for _, st := range fieldStores(lk, matchedRouteT, "Params") {
-			c.obI("R01.3", st, "params-are-accumulated", freshSlice(st.Val, 0), "the matched route carries the list built from every capture", "")
-		}
-		for _, l := range sliceLoops(lk, vOrigins(oCall(1, "(*rt/middleware/denco.Router).Lookup"))) {
-			okAll := l.everyIteration(func(in ssa.Instruction) bool {
-				call, ok := in.(*ssa.Call)
-				if !ok {
-					return false
-				}
-				n := calleeName(&call.Call)
-				return n == "rt/middleware.decodeCompositParams" || (n == "builtin append" && typeStr(call.Type()) == "rt/middleware.RouteParams")
-			})
-			c.obI("R01.3", l.Elem, "every-capture-handed-on", okAll, "every captured parameter yields at least one route parameter", "a capture can be dropped")
-		}
-	}
-	c.min("R01.3", 9)
+	rulePathValuesDecodedOnce(c, "R01.3")
 
 	// R01.4
 	nr := callsIn(ar, "rt/middleware/denco.NewRecord")
@@ -467,4 +414,104 @@ func concatLiteral(v ssa.Value) (int, ssa.Value) {
 		return -1, nil
 	}
 	return lit, name
+}
+
+// rulePathValuesDecodedOnce (shared by C01 and C03): the values path parameters are bound from are the PathUnescape of
+// the text the trie captured, decoded exactly once, every capture handed on.
+func rulePathValuesDecodedOnce(c *Ctx, rule string) {
+	p := c.P
+	lk := p.Fn("(*rt/middleware.defaultRouter).Lookup")
+	isCaptured := vFieldLoad(dencoParamT, "Value", nil)
+	unesc := callsIn(lk, "net/url.PathUnescape")
+	c.obF(rule, lk, "unescapes", len(unesc) == 1, "captured values are percent-decoded", fmt.Sprintf("%d PathUnescape calls", len(unesc)))
+	if len(unesc) == 1 {
+		u := unesc[0].(*ssa.Call)
+		c.obI(rule, u, "unescapes-captured-text", isCaptured(u.Call.Args[0]), "the text decoded is the text the trie captured", "argument "+describe(u.Call.Args[0]))
+		uerr := resultOf(u, 1)
+		decoded := func(o Origin) bool { return o.V == ssa.Value(u) && o.Index == 0 }
+		raw := func(o Origin) bool { return isCaptured(o.V) }
+		isV := func(v ssa.Value) (bool, string) {
+			ok, bad := allOrigins(v, decoded, raw)
+			if !ok {
+				return false, "origin " + describeOrigin(bad)
+			}
+			// raw only on the error branch
+			if phi, isPhi := v.(*ssa.Phi); isPhi {
+				for i, e := range phi.Edges {
+					if okR, _ := allOrigins(e, raw); okR {
+						if uerr == nil || !edgeGuarded(phi.Block().Preds[i], phi.Block(), u, factNil(vIs(uerr), false)) {
+							return false, "the raw (still encoded) text can be handed on although decoding succeeded"
+						}
+					}
+				}
+			} else if okR, _ := allOrigins(v, raw); okR {
+				return false, "the raw (still encoded) text is handed on"
+			}
+			return true, ""
+		}
+		dcs := callsIn(lk, "rt/middleware.decodeCompositParams")
+		nVal := 0
+		for _, st := range fieldStores(lk, routeParamT, "Value") {
+			nVal++
+			if ok, why := isV(st.Val); ok {
+				c.obI(rule, st, "value-decoded-once", true, "a path-parameter value is the PathUnescape of the captured text (raw text only when decoding failed)", why)
+				continue
+			}
+			// element of decodeCompositParams' values
+			okC := false
+			if ld, isLd := st.Val.(*ssa.UnOp); isLd {
+				if ia, isIA := ld.X.(*ssa.IndexAddr); isIA {
+					okC, _ = allOrigins(ia.X, oCall(1, "rt/middleware.decodeCompositParams"))
+				}
+			}
+			_, why := isV(st.Val)
+			c.obI(rule, st, "value-decoded-once", okC, "a path-parameter value is the PathUnescape of the captured text, directly or split by the composite decoder", why)
+		}
+		c.obF(rule, lk, "hands-values-on", nVal >= 2, "Lookup builds RouteParams", "")
+		for _, d := range dcs {
+			a := d.Common().Args
+			okN := vFieldLoad(dencoParamT, "Name", nil)(a[0])
+			okV, why := isV(a[1])
+			c.obI(rule, d, "composite-decoder-input", okN && okV && isNilConst(a[3]) && isNilConst(a[4]), "the composite decoder splits the decoded value of this capture", why)
+		}
+		for _, st := range fieldStores(lk, routeParamT, "Name") {
+			ok := vFieldLoad(dencoParamT, "Name", nil)(st.Val)
+			if !ok {
+				if ld, isLd := st.Val.(*ssa.UnOp); isLd {
+					if ia, isIA := ld.X.(*ssa.IndexAddr); isIA {
+						ok, _ = allOrigins(ia.X, oCall(0, "rt/middleware.decodeCompositParams"))
+					}
+				} else if ex, isEx := st.Val.(*ssa.Extract); isEx {
+					_ = ex
+				}
+				if !ok {
+					// range value over decodeCompositParams #0
+					for _, o := range originsOf(st.Val) {
+						if ad, isD := derefLoad(o.V); isD {
+							if ia, isIA := ad.(*ssa.IndexAddr); isIA {
+								ok, _ = allOrigins(ia.X, oCall(0, "rt/middleware.decodeCompositParams"))
+							}
+						}
+					}
+				}
+			}
+			c.obI(rule, st, "name-from-trie-or-decoder", ok, "parameter names come from the trie's capture or from the composite decoder", "name "+describe(st.Val))
+		}
+		// params of the matched route are exactly the accumulated list
+		for _, st := range fieldStores(lk, matchedRouteT, "Params") {
+			c.obI(rule, st, "params-are-accumulated", freshSlice(st.Val, 0), "the matched route carries the list built from every capture", "")
+		}
+		for _, l := range sliceLoops(lk, vOrigins(oCall(1, "(*rt/middleware/denco.Router).Lookup"))) {
+			okAll := l.everyIteration(func(in ssa.Instruction) bool {
+				call, ok := in.(*ssa.Call)
+				if !ok {
+					return false
+				}
+				n := calleeName(&call.Call)
+				return n == "rt/middleware.decodeCompositParams" || (n == "builtin append" && typeStr(call.Type()) == "rt/middleware.RouteParams")
+			})
+			c.obI(rule, l.Elem, "every-capture-handed-on", okAll, "every captured parameter yields at least one route parameter", "a capture can be dropped")
+		}
+	}
+	c.min(rule, 9)
 }
